@@ -3,6 +3,7 @@ package main
 // C16 — the plugin client follows the protocol for every plugin behaviour.
 
 import (
+	"bufio"
 	"bytes"
 	"errors"
 	"fmt"
@@ -12,6 +13,7 @@ import (
 	"strings"
 
 	"filippo.io/age"
+	"filippo.io/age/internal/format"
 	"filippo.io/age/plugin"
 )
 
@@ -160,15 +162,25 @@ func (c *Ctx) c16Identity(pe *pluginEnv, u uiCfg, kind string, out []byte, hdr [
 	in := map[string]interface{}{"machine": "identity-v1", "kind": kind, "ui": u, "plugin_output": string(out)}
 	c.Compare("plugin.Identity.Unwrap~Plugin.identity_client", in, lst(hx(masked), implRes), lst(hx(mt), mres))
 	// protocol oracles stated on the implementation
-	nFileKeys := bytes.Count(out, []byte("-> file-key"))
 	if uerr == nil {
-		c.Oracle("file-key-accepted-only-once", nFileKeys == 1 || !allWellFormedBefore(out), "duplicate-file-key-accepted", in, "Unwrap succeeded although the plugin sent more than one file-key stanza")
+		// count the file-key messages the plugin sent before it said "done"
+		n := 0
+		sr := format.NewStanzaReader(bufio.NewReader(bytes.NewReader(out)))
+		for {
+			st, err := sr.ReadStanza()
+			if err != nil || st.Type == "done" || st.Type == "error" {
+				break
+			}
+			if st.Type == "file-key" {
+				n++
+			}
+		}
+		c.Oracle("file-key-accepted-only-once", n == 1, "duplicate-file-key-accepted", in, fmt.Sprintf("Unwrap succeeded although the plugin sent %d file-key stanzas before done", n))
 	}
 	c.note("i:"+kind+fmt.Sprint(u)+string(out), true)
 	c.count("identity-" + kind)
 }
 
-func allWellFormedBefore(out []byte) bool { return true }
 
 func checkC16(c *Ctx) {
 	c.rule = "a scripted plugin executable on a private PATH plays a byte script and records what it receives. ALL conversations of <= 2 (quick) / 3 (thorough) messages over ~28 message variants per machine (each command valid, wrong arity, index 1/-0/+0/00/x, empty body, 100-byte body, repeated; unknown commands; UI commands msg/request-secret/request-public/confirm with 0-3 arguments and bad base64; malformed framing; end of output at every point), + random longer ones, with all UI callbacks present; every UI command x every combination of {absent, failing, answering} callbacks. Compared: the bytes the client sent (grease masked) and the result class/payload. distinct_nontrivial = distinct (machine, UI, script) cases."
